@@ -6,6 +6,7 @@ pub mod c09;
 pub mod c10;
 pub mod c11;
 pub mod c12;
+pub mod c13;
 pub mod c14;
 pub mod c15;
 pub mod c16;
@@ -24,6 +25,7 @@ fn table(prop: &str) -> Option<(RunFn, ReplayFn)> {
         "C10" => (c10::run, c10::replay),
         "C11" => (c11::run, c11::replay),
         "C12" => (c12::run, c12::replay),
+        "C13" => (c13::run, c13::replay),
         "C14" => (c14::run, c14::replay),
         "C15" => (c15::run, c15::replay),
         "C16" => (c16::run, c16::replay),
